@@ -531,6 +531,10 @@ func TestReplay(t *testing.T) {
 		replayStreams(t, c, doc.Data)
 		return
 	}
+	if doc.Check == "concurrent" {
+		replayConcurrent(t, c, doc.Data)
+		return
+	}
 	if doc.Check == "pipeline" {
 		replayPipeline(t, c, doc.Data)
 		return
